@@ -320,6 +320,249 @@ Example sync_converges_bft_order_example :
     best N st' = Bft.Tree.b_id (Compose.SyncOrder.ex_m 7).
 Proof. exact Compose.SyncOrder.sync_converges_bft_order_example. Qed.
 
+(* C19 <-> C04, second round (Compose/SyncStep.v): the STEP simulation.  Sync's `valid` is instantiated with
+   bft.Accepts (valid_bft U fin: fin has number 0 or lies on the chain, in the universe tree U, of the block's parent) and
+   Sync's import / import_all are shown to BE the Bft node's import / handleBlockStream seen through sync_node, in a
+   fixed finalized context; then sync_converges is restated about the real node.  Side conditions, stated explicitly:
+   fin_fixed (finalized does not move during the stream) and no_commit_error (CommitBlock does not fail during the
+   stream; after such a failure the Go node has stored the block AND aborts the stream, an outcome Sync's model does not
+   have).  no_commit_error is discharged for the repaired code (guard = true) by C04's commit_block_total; fin_fixed is
+   dropped for one-chain streams — what an honest peer's download is — because finalized only moves along the imported
+   chain; it cannot be dropped in general (fin_moves_valid_is_not_a_function). *)
+From Verif Require Compose.SyncStep.
+
+Theorem bft_accepts_is_valid (c : Bft.Model.cfg) (U : Bft.Tree.repo) (nd : Bft.Model.node) (b : Bft.Tree.blk) (fin : N) :
+  Bft.ProofsNode.inv c nd -> Bft.Tree.wf_repo U -> (forall x, In x (Bft.Model.n_repo nd) -> In x U) -> In b U ->
+  Bft.Tree.known (Bft.Model.n_repo nd) (Bft.Tree.b_parent b) = true -> Bft.Model.e_fin (Bft.Model.n_eng nd) = fin ->
+  Bft.Model.accepts (Bft.Model.n_repo nd) (Bft.Model.n_eng nd) (Bft.Tree.b_parent b) =
+  Compose.SyncStep.valid_bft U fin (Bft.Tree.b_id b).
+Proof. exact (Compose.SyncStep.valid_bft_is_accepts c U nd b fin). Qed.
+
+(* one block: codes 0 / 1 -> Some (Sync view of Bft's next node); codes 2 / 3 -> None; a CommitBlock error (100+) ->
+   Some as far as the state goes (bft_step_commit_error) *)
+Theorem bft_step_sim (c : Bft.Model.cfg) (guard : bool) (U : Bft.Tree.repo) (nd : Bft.Model.node) (b : Bft.Tree.blk) (fin : N) :
+  0 < Bft.Model.c_L c -> Bft.ProofsNode.inv c nd -> Bft.Tree.wf_repo U -> (forall x, In x (Bft.Model.n_repo nd) -> In x U) ->
+  In b U -> Bft.Model.e_fin (Bft.Model.n_eng nd) = fin ->
+  import N Compose.SyncOrder.sbid (Compose.SyncOrder.sparent U) (Compose.SyncStep.valid_bft U fin)
+         (Compose.SyncOrder.sbetter c U) (Compose.SyncOrder.sync_node nd) (Bft.Tree.b_id b) =
+  if Compose.SyncStep.rejected (snd (Bft.Model.import guard c nd b)) then None
+  else Some (Compose.SyncOrder.sync_node (fst (Bft.Model.import guard c nd b))).
+Proof. exact (Compose.SyncStep.step_sim c guard U nd b fin). Qed.
+
+Theorem bft_step_commit_error (c : Bft.Model.cfg) (guard : bool) (U : Bft.Tree.repo) (nd : Bft.Model.node)
+        (b : Bft.Tree.blk) (fin : N) (nd' : Bft.Model.node) (code : N) :
+  0 < Bft.Model.c_L c -> Bft.Tree.wf_repo U -> Bft.ProofsNode.inv c nd -> (forall x, In x (Bft.Model.n_repo nd) -> In x U) ->
+  In b U -> Bft.Model.e_fin (Bft.Model.n_eng nd) = fin -> Bft.Model.import guard c nd b = (nd', code) -> 100 <= code ->
+  import N Compose.SyncOrder.sbid (Compose.SyncOrder.sparent U) (Compose.SyncStep.valid_bft U fin)
+         (Compose.SyncOrder.sbetter c U) (Compose.SyncOrder.sync_node nd) (Bft.Tree.b_id b) =
+    Some (Compose.SyncOrder.sync_node nd') /\
+  Bft.Model.n_repo nd' = b :: Bft.Model.n_repo nd.
+Proof. intros HL WU. exact (Compose.SyncStep.step_commit_error c HL guard U WU nd b fin nd' code). Qed.
+
+(* a stream: Sync's import_all = Bft's handleBlockStream (same stopping point, same verdict) through sync_node *)
+Theorem bft_stream_sim (c : Bft.Model.cfg) (guard : bool) (U : Bft.Tree.repo) (fin : N) (l : list Bft.Tree.blk) (nd : Bft.Model.node) :
+  0 < Bft.Model.c_L c -> Bft.Tree.wf_repo U -> Bft.ProofsNode.inv c nd -> (forall x, In x (Bft.Model.n_repo nd) -> In x U) ->
+  (forall b, In b l -> In b U) ->
+  Compose.SyncStep.fin_fixed c guard nd l fin -> Compose.SyncStep.no_commit_error c guard nd l ->
+  import_all N Compose.SyncOrder.sbid (Compose.SyncOrder.sparent U) (Compose.SyncStep.valid_bft U fin)
+             (Compose.SyncOrder.sbetter c U) (Compose.SyncOrder.sync_node nd) (map Bft.Tree.b_id l) =
+  (Compose.SyncOrder.sync_node (fst (Compose.SyncStep.import_stream c guard nd l)), snd (Compose.SyncStep.import_stream c guard nd l)).
+Proof. intros HL WU. exact (Compose.SyncStep.stream_sim c HL guard U WU fin l nd). Qed.
+
+Theorem bft_stream_sim_ok (c : Bft.Model.cfg) (guard : bool) (U : Bft.Tree.repo) (fin : N) (l : list Bft.Tree.blk) (nd : Bft.Model.node) :
+  0 < Bft.Model.c_L c -> Bft.Tree.wf_repo U -> Bft.ProofsNode.inv c nd -> (forall x, In x (Bft.Model.n_repo nd) -> In x U) ->
+  (forall b, In b l -> In b U) ->
+  Compose.SyncStep.fin_fixed c guard nd l fin -> Compose.SyncStep.codes_ok c guard nd l ->
+  import_all N Compose.SyncOrder.sbid (Compose.SyncOrder.sparent U) (Compose.SyncStep.valid_bft U fin)
+             (Compose.SyncOrder.sbetter c U) (Compose.SyncOrder.sync_node nd) (map Bft.Tree.b_id l) =
+  (Compose.SyncOrder.sync_node (Bft.ProofsNode.import_all c guard nd l), true).
+Proof. intros HL WU. exact (Compose.SyncStep.stream_sim_ok c HL guard U WU fin l nd). Qed.
+
+(* one chain hanging off a stored block: finalized may move, nothing is refused *)
+Theorem bft_stream_sim_chain (c : Bft.Model.cfg) (guard : bool) (U : Bft.Tree.repo) (fin0 : N) (l : list Bft.Tree.blk)
+        (nd : Bft.Model.node) (prev : N) :
+  0 < Bft.Model.c_L c -> Bft.Tree.wf_repo U ->
+  Bft.ProofsNode.inv c nd -> Bft.ProofsMonotone.fin_ok nd -> (forall x, In x (Bft.Model.n_repo nd) -> In x U) ->
+  (forall b, In b l -> In b U) -> (forall b, In b l -> Bft.Tree.b_num b <> 0) ->
+  Compose.SyncStep.linked_from prev l -> Bft.Tree.known (Bft.Model.n_repo nd) prev = true ->
+  (Bft.Model.e_fin (Bft.Model.n_eng nd) = fin0 \/ Bft.Model.accepts (Bft.Model.n_repo nd) (Bft.Model.n_eng nd) prev = true) ->
+  (forall b, In b l -> Bft.Tree.known (Bft.Model.n_repo nd) (Bft.Tree.b_id b) = false ->
+             Compose.SyncStep.valid_bft U fin0 (Bft.Tree.b_id b) = true) ->
+  Compose.SyncStep.no_commit_error c guard nd l ->
+  import_all N Compose.SyncOrder.sbid (Compose.SyncOrder.sparent U) (Compose.SyncStep.valid_bft U fin0)
+             (Compose.SyncOrder.sbetter c U) (Compose.SyncOrder.sync_node nd) (map Bft.Tree.b_id l) =
+  (Compose.SyncOrder.sync_node (Bft.ProofsNode.import_all c guard nd l), true) /\
+  Compose.SyncStep.codes_ok c guard nd l.
+Proof. intros HL WU. exact (Compose.SyncStep.stream_sim_chain c HL guard U WU fin0 l nd prev). Qed.
+
+(* C04 commit_block_total, relative to a universe: the repaired CommitBlock does not fail on any stream *)
+Theorem bft_no_commit_error_guarded (c : Bft.Model.cfg) (U : Bft.Tree.repo) (l : list Bft.Tree.blk) (nd : Bft.Model.node) :
+  0 < Bft.Model.c_L c -> Bft.Tree.wf_repo U -> Bft.ProofsNode.inv c nd -> Bft.ProofsCommit.fin_cp c nd ->
+  (forall x, In x (Bft.Model.n_repo nd) -> In x U) -> (forall b, In b l -> In b U) ->
+  Compose.SyncStep.no_commit_error c true nd l.
+Proof. intros HL WU. exact (Compose.SyncStep.no_commit_error_guarded c U HL WU l nd). Qed.
+
+(* sync_converges on the real node, finalized fixed: premises of sync_converges_bft_order with `valid` replaced by what
+   bft.Accepts means (asked only of blocks the node does not store), plus 0 < epoch length and "U holds the peer's chain" *)
+Theorem sync_converges_bft_node (c : Bft.Model.cfg) (guard : bool) (U : Bft.Tree.repo) (nd : Bft.Model.node) (fin : N)
+        (num : N -> N) (lc rc : list N) (cut : N -> nat) (h : N) fuel fuel2 :
+  0 < Bft.Model.c_L c ->
+  Bft.ProofsNode.inv c nd -> Bft.Tree.wf_repo U -> (forall x, In x (Bft.Model.n_repo nd) -> In x U) ->
+  (forall i, In i rc -> Bft.Tree.known U i = true) ->
+  chain_linked N Compose.SyncOrder.sbid (Compose.SyncOrder.sparent U) lc ->
+  chain_linked N Compose.SyncOrder.sbid (Compose.SyncOrder.sparent U) rc ->
+  (forall b, In b lc -> In b (store N (Compose.SyncOrder.sync_node nd))) ->
+  same_at N Compose.SyncOrder.sbid lc rc 0 = true ->
+  N.of_nat (length lc - 1) < 2147483648 ->
+  (forall n b, nth_error rc n = Some b -> num b = N.of_nat n) ->
+  N.of_nat (length rc) < 4294967296 ->
+  (forall i, In i rc -> Bft.Tree.known (Bft.Model.n_repo nd) i = false ->
+     Bft.Tree.idnum fin = 0 \/ Bft.Tree.has_block U (Compose.SyncOrder.sparent U i) fin = true) ->
+  (forall n, (1 <= cut n <= max_batch)%nat) ->
+  nth_error rc (length rc - 1) = Some h ->
+  Compose.SyncOrder.sbetter c U h (best N (Compose.SyncOrder.sync_node nd)) = true ->
+  (forall b, In b rc -> b <> h -> Compose.SyncOrder.sbetter c U h b = true) ->
+  (ancestor_fuel (N.of_nat (length lc - 1)) <= fuel)%nat -> (length rc < fuel2)%nat ->
+  exists a l,
+    find_common_ancestor (fun n => Some (same_at N Compose.SyncOrder.sbid lc rc n)) (N.of_nat (length lc - 1)) fuel = Anc a /\
+    is_last (same_at N Compose.SyncOrder.sbid lc rc) (N.of_nat (length lc - 1)) a /\
+    download_stream N N (fun b => Some (num b)) (fun b => Some b) (honest_peer N rc cut) (a + 1) fuel2 = (l, DlDone) /\
+    l = skipn (N.to_nat (a + 1)) rc /\
+    (Compose.SyncStep.fin_fixed c guard nd (map (Compose.SyncOrder.blk_of U) l) fin ->
+     Compose.SyncStep.no_commit_error c guard nd (map (Compose.SyncOrder.blk_of U) l) ->
+     let nd' := Bft.ProofsNode.import_all c guard nd (map (Compose.SyncOrder.blk_of U) l) in
+     import_all N Compose.SyncOrder.sbid (Compose.SyncOrder.sparent U) (Compose.SyncStep.valid_bft U fin)
+                (Compose.SyncOrder.sbetter c U) (Compose.SyncOrder.sync_node nd) l = (Compose.SyncOrder.sync_node nd', true) /\
+     Compose.SyncStep.codes_ok c guard nd (map (Compose.SyncOrder.blk_of U) l) /\
+     Bft.ProofsNode.inv c nd' /\ Bft.Model.n_best nd' = h).
+Proof. exact (Compose.SyncStep.sync_converges_bft_node c guard U nd fin num lc rc cut h fuel fuel2). Qed.
+
+(* ... finalized free to move (the download is one chain): fin is the node's finalized id when the download starts *)
+Theorem sync_converges_bft_node_chain (c : Bft.Model.cfg) (guard : bool) (U : Bft.Tree.repo) (nd : Bft.Model.node)
+        (num : N -> N) (lc rc : list N) (cut : N -> nat) (h : N) fuel fuel2 :
+  0 < Bft.Model.c_L c ->
+  Bft.ProofsNode.inv c nd -> Bft.ProofsMonotone.fin_ok nd -> Bft.Tree.wf_repo U ->
+  (forall x, In x (Bft.Model.n_repo nd) -> In x U) ->
+  (forall i, In i rc -> Bft.Tree.known U i = true) ->
+  chain_linked N Compose.SyncOrder.sbid (Compose.SyncOrder.sparent U) lc ->
+  chain_linked N Compose.SyncOrder.sbid (Compose.SyncOrder.sparent U) rc ->
+  (forall b, In b lc -> In b (store N (Compose.SyncOrder.sync_node nd))) ->
+  same_at N Compose.SyncOrder.sbid lc rc 0 = true ->
+  N.of_nat (length lc - 1) < 2147483648 ->
+  (forall n b, nth_error rc n = Some b -> num b = N.of_nat n) -> (forall i, In i rc -> num i = Bft.Tree.idnum i) ->
+  N.of_nat (length rc) < 4294967296 ->
+  (forall i, In i rc -> Bft.Tree.known (Bft.Model.n_repo nd) i = false ->
+     Bft.Tree.idnum (Bft.Model.e_fin (Bft.Model.n_eng nd)) = 0 \/
+     Bft.Tree.has_block U (Compose.SyncOrder.sparent U i) (Bft.Model.e_fin (Bft.Model.n_eng nd)) = true) ->
+  (forall n, (1 <= cut n <= max_batch)%nat) ->
+  nth_error rc (length rc - 1) = Some h ->
+  Compose.SyncOrder.sbetter c U h (best N (Compose.SyncOrder.sync_node nd)) = true ->
+  (forall b, In b rc -> b <> h -> Compose.SyncOrder.sbetter c U h b = true) ->
+  (ancestor_fuel (N.of_nat (length lc - 1)) <= fuel)%nat -> (length rc < fuel2)%nat ->
+  exists a l,
+    find_common_ancestor (fun n => Some (same_at N Compose.SyncOrder.sbid lc rc n)) (N.of_nat (length lc - 1)) fuel = Anc a /\
+    is_last (same_at N Compose.SyncOrder.sbid lc rc) (N.of_nat (length lc - 1)) a /\
+    download_stream N N (fun b => Some (num b)) (fun b => Some b) (honest_peer N rc cut) (a + 1) fuel2 = (l, DlDone) /\
+    l = skipn (N.to_nat (a + 1)) rc /\
+    (Compose.SyncStep.no_commit_error c guard nd (map (Compose.SyncOrder.blk_of U) l) ->
+     let nd' := Bft.ProofsNode.import_all c guard nd (map (Compose.SyncOrder.blk_of U) l) in
+     import_all N Compose.SyncOrder.sbid (Compose.SyncOrder.sparent U)
+                (Compose.SyncStep.valid_bft U (Bft.Model.e_fin (Bft.Model.n_eng nd)))
+                (Compose.SyncOrder.sbetter c U) (Compose.SyncOrder.sync_node nd) l = (Compose.SyncOrder.sync_node nd', true) /\
+     Compose.SyncStep.codes_ok c guard nd (map (Compose.SyncOrder.blk_of U) l) /\
+     Bft.ProofsNode.inv c nd' /\ Bft.Model.n_best nd' = h).
+Proof. exact (Compose.SyncStep.sync_converges_bft_node_chain c guard U nd num lc rc cut h fuel fuel2). Qed.
+
+(* ... and for the repaired code (guard = true) with finalized at a checkpoint number: no side condition about the run *)
+Theorem sync_converges_bft_node_guarded (c : Bft.Model.cfg) (U : Bft.Tree.repo) (nd : Bft.Model.node)
+        (num : N -> N) (lc rc : list N) (cut : N -> nat) (h : N) fuel fuel2 :
+  0 < Bft.Model.c_L c ->
+  Bft.ProofsNode.inv c nd -> Bft.ProofsMonotone.fin_ok nd -> Bft.ProofsCommit.fin_cp c nd -> Bft.Tree.wf_repo U ->
+  (forall x, In x (Bft.Model.n_repo nd) -> In x U) ->
+  (forall i, In i rc -> Bft.Tree.known U i = true) ->
+  chain_linked N Compose.SyncOrder.sbid (Compose.SyncOrder.sparent U) lc ->
+  chain_linked N Compose.SyncOrder.sbid (Compose.SyncOrder.sparent U) rc ->
+  (forall b, In b lc -> In b (store N (Compose.SyncOrder.sync_node nd))) ->
+  same_at N Compose.SyncOrder.sbid lc rc 0 = true ->
+  N.of_nat (length lc - 1) < 2147483648 ->
+  (forall n b, nth_error rc n = Some b -> num b = N.of_nat n) -> (forall i, In i rc -> num i = Bft.Tree.idnum i) ->
+  N.of_nat (length rc) < 4294967296 ->
+  (forall i, In i rc -> Bft.Tree.known (Bft.Model.n_repo nd) i = false ->
+     Bft.Tree.idnum (Bft.Model.e_fin (Bft.Model.n_eng nd)) = 0 \/
+     Bft.Tree.has_block U (Compose.SyncOrder.sparent U i) (Bft.Model.e_fin (Bft.Model.n_eng nd)) = true) ->
+  (forall n, (1 <= cut n <= max_batch)%nat) ->
+  nth_error rc (length rc - 1) = Some h ->
+  Compose.SyncOrder.sbetter c U h (best N (Compose.SyncOrder.sync_node nd)) = true ->
+  (forall b, In b rc -> b <> h -> Compose.SyncOrder.sbetter c U h b = true) ->
+  (ancestor_fuel (N.of_nat (length lc - 1)) <= fuel)%nat -> (length rc < fuel2)%nat ->
+  exists a l,
+    find_common_ancestor (fun n => Some (same_at N Compose.SyncOrder.sbid lc rc n)) (N.of_nat (length lc - 1)) fuel = Anc a /\
+    is_last (same_at N Compose.SyncOrder.sbid lc rc) (N.of_nat (length lc - 1)) a /\
+    download_stream N N (fun b => Some (num b)) (fun b => Some b) (honest_peer N rc cut) (a + 1) fuel2 = (l, DlDone) /\
+    l = skipn (N.to_nat (a + 1)) rc /\
+    let nd' := Bft.ProofsNode.import_all c true nd (map (Compose.SyncOrder.blk_of U) l) in
+    import_all N Compose.SyncOrder.sbid (Compose.SyncOrder.sparent U)
+               (Compose.SyncStep.valid_bft U (Bft.Model.e_fin (Bft.Model.n_eng nd)))
+               (Compose.SyncOrder.sbetter c U) (Compose.SyncOrder.sync_node nd) l = (Compose.SyncOrder.sync_node nd', true) /\
+    Compose.SyncStep.codes_ok c true nd (map (Compose.SyncOrder.blk_of U) l) /\
+    Bft.ProofsNode.inv c nd' /\ Bft.Model.n_best nd' = h.
+Proof. exact (Compose.SyncStep.sync_converges_bft_node_guarded c U nd num lc rc cut h fuel fuel2). Qed.
+
+(* non-vacuity (Compose/SyncStep.v section 6).  Instance with a NON-genesis finalized block m2 (epoch length 2): local
+   head l7 (quality 2, total score 200), peer's chain g..m7 resp. g..m9; the common ancestor is height 5; finalized is m2
+   at the arrival of m6 and m7 (fixed-finalized statement) and moves to m4 and m6 while m6..m9 are imported (guarded
+   statement); every import has code 0 and the peer's head becomes the Bft node's best block. *)
+Example sync_converges_bft_node_example :
+  Bft.Tree.idnum Compose.SyncStep.ex2_fin <> 0 /\
+  exists a l,
+    find_common_ancestor (fun n => Some (same_at N Compose.SyncOrder.sbid Compose.SyncStep.ex2_lc Compose.SyncStep.ex2_rc7 n)) 7 20 = Anc a /\
+    a = 5 /\ l = map Bft.Tree.b_id (map Compose.SyncStep.ex2_m [6; 7]) /\
+    let nd' := Bft.ProofsNode.import_all Compose.SyncStep.ex2_cfg true Compose.SyncStep.ex2_nd
+                 (map (Compose.SyncOrder.blk_of Compose.SyncStep.ex2_U) l) in
+    import_all N Compose.SyncOrder.sbid (Compose.SyncOrder.sparent Compose.SyncStep.ex2_U)
+               (Compose.SyncStep.valid_bft Compose.SyncStep.ex2_U Compose.SyncStep.ex2_fin)
+               (Compose.SyncOrder.sbetter Compose.SyncStep.ex2_cfg Compose.SyncStep.ex2_U)
+               (Compose.SyncOrder.sync_node Compose.SyncStep.ex2_nd) l = (Compose.SyncOrder.sync_node nd', true) /\
+    Compose.SyncStep.codes_ok Compose.SyncStep.ex2_cfg true Compose.SyncStep.ex2_nd
+      (map (Compose.SyncOrder.blk_of Compose.SyncStep.ex2_U) l) /\
+    Bft.ProofsNode.inv Compose.SyncStep.ex2_cfg nd' /\ Bft.Model.n_best nd' = Bft.Tree.b_id (Compose.SyncStep.ex2_m 7).
+Proof. exact Compose.SyncStep.sync_converges_bft_node_example. Qed.
+
+Example sync_converges_bft_node_guarded_example :
+  exists a l,
+    find_common_ancestor (fun n => Some (same_at N Compose.SyncOrder.sbid Compose.SyncStep.ex2_lc Compose.SyncStep.ex2_rc9 n)) 7 20 = Anc a /\
+    a = 5 /\ l = map Bft.Tree.b_id (map Compose.SyncStep.ex2_m [6; 7; 8; 9]) /\
+    let nd' := Bft.ProofsNode.import_all Compose.SyncStep.ex2_cfg true Compose.SyncStep.ex2_nd
+                 (map (Compose.SyncOrder.blk_of Compose.SyncStep.ex2_U) l) in
+    import_all N Compose.SyncOrder.sbid (Compose.SyncOrder.sparent Compose.SyncStep.ex2_U)
+               (Compose.SyncStep.valid_bft Compose.SyncStep.ex2_U Compose.SyncStep.ex2_fin)
+               (Compose.SyncOrder.sbetter Compose.SyncStep.ex2_cfg Compose.SyncStep.ex2_U)
+               (Compose.SyncOrder.sync_node Compose.SyncStep.ex2_nd) l = (Compose.SyncOrder.sync_node nd', true) /\
+    Compose.SyncStep.codes_ok Compose.SyncStep.ex2_cfg true Compose.SyncStep.ex2_nd
+      (map (Compose.SyncOrder.blk_of Compose.SyncStep.ex2_U) l) /\
+    Bft.ProofsNode.inv Compose.SyncStep.ex2_cfg nd' /\ Bft.Model.n_best nd' = Bft.Tree.b_id (Compose.SyncStep.ex2_m 9) /\
+    Bft.Model.e_fin (Bft.Model.n_eng nd') = Bft.Tree.b_id (Compose.SyncStep.ex2_m 6).
+Proof. exact Compose.SyncStep.sync_converges_bft_node_guarded_example. Qed.
+
+(* why fin_fixed cannot be dropped for arbitrary streams: the fork block f4 is imported (code 0) when it arrives before
+   m7 and refused (code 3) when it arrives after m7 has moved finalized from m2 to m4, while Sync's state-independent
+   `valid` at fin = m2 accepts it in both orders *)
+Example fin_moves_valid_is_not_a_function :
+  Bft.Safety.import_codes true Compose.SyncStep.ex2_cfg Compose.SyncStep.ex2_nd
+    ([Compose.SyncStep.ex2_f4] ++ map Compose.SyncStep.ex2_m [6; 7]) = [0; 0; 0] /\
+  Bft.Safety.import_codes true Compose.SyncStep.ex2_cfg Compose.SyncStep.ex2_nd
+    (map Compose.SyncStep.ex2_m [6; 7] ++ [Compose.SyncStep.ex2_f4]) = [0; 0; 3] /\
+  Compose.SyncStep.valid_bft Compose.SyncStep.ex2_U Compose.SyncStep.ex2_fin (Bft.Tree.b_id Compose.SyncStep.ex2_f4) = true /\
+  Compose.SyncStep.valid_bft Compose.SyncStep.ex2_U (Bft.Tree.b_id (Compose.SyncStep.ex2_m 4)) (Bft.Tree.b_id Compose.SyncStep.ex2_f4) = false /\
+  snd (import_all N Compose.SyncOrder.sbid (Compose.SyncOrder.sparent Compose.SyncStep.ex2_U)
+         (Compose.SyncStep.valid_bft Compose.SyncStep.ex2_U Compose.SyncStep.ex2_fin)
+         (Compose.SyncOrder.sbetter Compose.SyncStep.ex2_cfg Compose.SyncStep.ex2_U)
+         (Compose.SyncOrder.sync_node Compose.SyncStep.ex2_nd)
+         (map Bft.Tree.b_id (map Compose.SyncStep.ex2_m [6; 7] ++ [Compose.SyncStep.ex2_f4]))) = true /\
+  ~ Compose.SyncStep.fin_fixed Compose.SyncStep.ex2_cfg true Compose.SyncStep.ex2_nd
+      (map Compose.SyncStep.ex2_m [6; 7] ++ [Compose.SyncStep.ex2_f4]) Compose.SyncStep.ex2_fin.
+Proof. exact Compose.SyncStep.fin_moves_valid_is_not_a_function. Qed.
+
 Print Assumptions ancestor_example.
 Print Assumptions ancestor_hyps_example.
 Print Assumptions ancestor_wrap_example.
@@ -347,3 +590,16 @@ Print Assumptions bft_order_strict_weak.
 Print Assumptions bft_node_best_max.
 Print Assumptions sync_converges_bft_order.
 Print Assumptions sync_converges_bft_order_example.
+Print Assumptions bft_accepts_is_valid.
+Print Assumptions bft_step_sim.
+Print Assumptions bft_step_commit_error.
+Print Assumptions bft_stream_sim.
+Print Assumptions bft_stream_sim_ok.
+Print Assumptions bft_stream_sim_chain.
+Print Assumptions bft_no_commit_error_guarded.
+Print Assumptions sync_converges_bft_node.
+Print Assumptions sync_converges_bft_node_chain.
+Print Assumptions sync_converges_bft_node_guarded.
+Print Assumptions sync_converges_bft_node_example.
+Print Assumptions sync_converges_bft_node_guarded_example.
+Print Assumptions fin_moves_valid_is_not_a_function.
